@@ -844,7 +844,10 @@ class StaticGenerativeFunction(Generic[R], GenerativeFunction[R]):
             ),
         ) = update_transform(self.source)(key, trace, constraint, argdiffs)
         if not Diff.static_check_tree_diff(retval_diffs):
-            retval_diffs = Diff.no_change(retval_diffs)
+            # untagged leaves (literals, constants) count as unchanged; tagged leaves keep their change tag
+            retval_diffs = Diff.tree_diff(
+                Diff.tree_primal(retval_diffs), Diff.tree_tangent(retval_diffs)
+            )
 
         def make_bwd_request(traces, subconstraints):
             addresses = traces.keys()
